@@ -4,6 +4,7 @@ import (
 	"encoding/binary"
 	"fmt"
 	"math/rand"
+	"os"
 	"sort"
 	"strings"
 	"testing"
@@ -302,7 +303,7 @@ func runRepLike(t *testing.T, cfg rlCfg, seed int64) sim.Result {
 				p.Release()
 			}
 		}
-		c.step("adv 1000s")
+		c.step("adv 600s")
 		s.Wait()
 		g := sim.Census()
 		sort.Strings(g)
@@ -397,11 +398,29 @@ func rlRandom(kind string, rng *rand.Rand) rlCfg {
 	return c
 }
 
+func rlDeadline(kind string) []rlCfg {
+	var out []rlCfg
+	us := time.Microsecond
+	for _, d := range []time.Duration{1 * us, time.Millisecond, time.Second, 300 * time.Second} {
+		just := (d - us).String()
+		o := rlCtxOpt{SendExp: d, RecvExp: d}
+		out = append(out, rlCfg{Kind: kind, Opts: []rlCtxOpt{o, o}, TTL: 8, SQ: 1, RQ: 2, Steps: []string{
+			"recv c0", "adv " + just, "adv 1us", "conngated", "req p1 1", "req p1 1", "req p1 1", "recv c0", "send c0", "recv c0", "send c0", "recv c1", "send c1",
+			"adv " + just, "adv 1us", "release p1", "req p1 1", "recv c0", "send c0", "adv " + d.String()}})
+	}
+	out = append(out, rlCfg{Kind: kind, Opts: []rlCtxOpt{{BestEffort: true}}, TTL: 8, SQ: 1, RQ: 4, Steps: []string{
+		"conngated", "req p1 1", "req p1 1", "req p1 1", "req p1 1", "recv c0", "send c0", "recv c0", "send c0", "recv c0", "send c0", "recv c0", "send c0", "adv 1s", "release p1"}})
+	return out
+}
+
 func testRepLike(t *testing.T, kind string) {
 	out := newOut(t, kind)
 	defer out.Close()
 	rng := rand.New(rand.NewSource(seed()))
 	cfgs := rlScripted(kind)
+	if os.Getenv("VERIF_MIX") == "deadline" {
+		cfgs = rlDeadline(kind)
+	}
 	for i := 0; i < count(80, 1200); i++ {
 		cfgs = append(cfgs, rlRandom(kind, rng))
 	}
